@@ -222,3 +222,212 @@ Example C07_audit_example_unmodelled :
   let l := s2l "type=EOE msg=audit(1.002:3): x" ++ ["194"%char; "160"%char] in
   parse_log_line c07_tbl l = PUnmodelled /\ parse_log_line c07_tbl (l ++ [nl]) = PUnmodelled.
 Proof. vm_compute. split; reflexivity. Qed.
+
+(* ====================================================================================================
+   C07_strings_… — the string primitives under the syslog / sshd models (group R)
+
+   Gen/PureFuncs.v (ParseSyslogMessage, Process's trimming, logRotationNumber, the sort comparator, ...) is
+   written in the Gallina versions of Go's [strings] functions of Lib/GoStrings.v; the sshd handlers use
+   Model/SshdProc.atoi for strconv.Atoi.  Each of these is (a) characterised here for ALL inputs and
+   (b) compared with the real library function on every run (stage harness/prims -mode strings,
+   Model/PrimsCheck.v).  Proofs: Proofs/GoStringsSpec.v. *)
+From Coq Require Import Arith NArith ZArith.
+From AM Require Import Proofs.GoStringsSpec.
+Open Scope nat_scope.
+Open Scope list_scope.
+
+(* strings.Index: the FIRST occurrence; None (Go's -1) iff there is none; Index(s, "") = 0 *)
+Theorem C07_strings_index_first : forall s sep i,
+  go_index s sep = Some i <->
+  i <= length s /\ occurs_at sep s i = true /\ forall j, j < i -> occurs_at sep s j = false.
+Proof. exact go_index_some. Qed.
+Print Assumptions C07_strings_index_first.
+
+Theorem C07_strings_index_none : forall s sep,
+  go_index s sep = None <-> forall j, j <= length s -> occurs_at sep s j = false.
+Proof. exact go_index_none. Qed.
+Print Assumptions C07_strings_index_none.
+
+Theorem C07_strings_index_empty_sep : forall s, go_index s [] = Some 0.
+Proof. exact go_index_empty. Qed.
+Print Assumptions C07_strings_index_empty_sep.
+
+Theorem C07_strings_index_split : forall s sep i,
+  go_index s sep = Some i -> s = firstn i s ++ sep ++ skipn (i + length sep) s.
+Proof. exact go_index_split. Qed.
+Print Assumptions C07_strings_index_split.
+
+(* strings.Cut *)
+Theorem C07_strings_cut_found : forall s sep i,
+  go_index s sep = Some i ->
+  go_cut s sep = (firstn i s, skipn (i + length sep) s, true) /\
+  s = firstn i s ++ sep ++ skipn (i + length sep) s.
+Proof. exact go_cut_found. Qed.
+Print Assumptions C07_strings_cut_found.
+
+Theorem C07_strings_cut_not_found : forall s sep, go_index s sep = None -> go_cut s sep = (s, [], false).
+Proof. exact go_cut_not_found. Qed.
+Print Assumptions C07_strings_cut_not_found.
+
+(* strings.Split for a NON-EMPTY separator: cut at the leftmost occurrence, continue behind it *)
+Theorem C07_strings_split_unfold : forall sep, sep <> [] -> forall s,
+  go_split s sep = match go_index s sep with
+                   | Some i => firstn i s :: go_split (skipn (i + length sep) s) sep
+                   | None => [s]
+                   end.
+Proof. exact go_split_unfold. Qed.
+Print Assumptions C07_strings_split_unfold.
+
+Theorem C07_strings_join_split : forall sep, sep <> [] -> forall s, go_join (go_split s sep) sep = s.
+Proof. exact go_join_split. Qed.
+Print Assumptions C07_strings_join_split.
+
+(* number of pieces = non-overlapping leftmost occurrences (strings.Count) + 1; no piece holds the separator *)
+Theorem C07_strings_split_length : forall s sep, length (go_split s sep) = S (go_count s sep).
+Proof. exact go_split_length. Qed.
+Print Assumptions C07_strings_split_length.
+
+Theorem C07_strings_count_unfold : forall sep, sep <> [] -> forall s,
+  go_count s sep = match go_index s sep with
+                   | Some i => S (go_count (skipn (i + length sep) s) sep)
+                   | None => 0
+                   end.
+Proof. exact go_count_unfold. Qed.
+Print Assumptions C07_strings_count_unfold.
+
+Theorem C07_strings_split_pieces_free : forall sep, sep <> [] -> forall s,
+  Forall (fun p => go_index p sep = None) (go_split s sep).
+Proof. exact go_split_pieces_free. Qed.
+Print Assumptions C07_strings_split_pieces_free.
+
+(* the EMPTY separator: the model yields len(s)+1 empty strings, Go splits into UTF-8 sequences - outside the
+   model's domain: tools/go2v refuses a separator that is not a non-empty constant; harness/prims counts such
+   cases as outside the domain *)
+Theorem C07_strings_split_empty_sep_model : forall s, go_split s [] = repeat [] (S (length s)).
+Proof. exact go_split_empty_sep. Qed.
+Print Assumptions C07_strings_split_empty_sep_model.
+
+(* HasPrefix / HasSuffix / TrimPrefix / TrimSuffix: exactly one removal, and only if present *)
+Theorem C07_strings_has_prefix : forall s p, go_has_prefix s p = true <-> exists t, s = p ++ t.
+Proof. exact go_has_prefix_iff. Qed.
+Print Assumptions C07_strings_has_prefix.
+
+Theorem C07_strings_has_suffix : forall s x, go_has_suffix s x = true <-> exists t, s = t ++ x.
+Proof. exact go_has_suffix_iff. Qed.
+Print Assumptions C07_strings_has_suffix.
+
+Theorem C07_strings_trim_prefix : forall p t, go_trim_prefix (p ++ t) p = t.
+Proof. exact go_trim_prefix_app. Qed.
+Print Assumptions C07_strings_trim_prefix.
+
+Theorem C07_strings_trim_prefix_absent : forall s p, go_has_prefix s p = false -> go_trim_prefix s p = s.
+Proof. exact go_trim_prefix_none. Qed.
+Print Assumptions C07_strings_trim_prefix_absent.
+
+Theorem C07_strings_trim_suffix : forall t x, go_trim_suffix (t ++ x) x = t.
+Proof. exact go_trim_suffix_app. Qed.
+Print Assumptions C07_strings_trim_suffix.
+
+Theorem C07_strings_trim_suffix_absent : forall s x, go_has_suffix s x = false -> go_trim_suffix s x = s.
+Proof. exact go_trim_suffix_none. Qed.
+Print Assumptions C07_strings_trim_suffix_absent.
+
+(* strings.TrimLeft on a cutset of BYTES (= Go's for ASCII cutsets): the longest prefix of cutset bytes goes *)
+Theorem C07_strings_trim_left : forall s cutset,
+  exists a, s = a ++ go_trim_left s cutset /\ forallb (in_cutset cutset) a = true /\
+            match go_trim_left s cutset with [] => True | c :: _ => in_cutset cutset c = false end.
+Proof. exact go_trim_left_spec. Qed.
+Print Assumptions C07_strings_trim_left.
+
+(* a < b on strings: the strict lexicographic byte order - declaratively, and a strict TOTAL order *)
+Theorem C07_strings_lt_is_lexicographic : forall a b, str_ltb a b = true <-> lex_lt a b.
+Proof. exact str_ltb_iff. Qed.
+Print Assumptions C07_strings_lt_is_lexicographic.
+
+Theorem C07_strings_lt_trichotomy : forall a b,
+  (str_ltb a b = true /\ a <> b /\ str_ltb b a = false) \/
+  (a = b /\ str_ltb a b = false /\ str_ltb b a = false) \/
+  (str_ltb b a = true /\ a <> b /\ str_ltb a b = false).
+Proof. exact str_ltb_trichotomy. Qed.
+Print Assumptions C07_strings_lt_trichotomy.
+
+Theorem C07_strings_lt_trans : forall a b c, str_ltb a b = true -> str_ltb b c = true -> str_ltb a c = true.
+Proof. exact str_ltb_trans. Qed.
+Print Assumptions C07_strings_lt_trans.
+
+Theorem C07_strings_lt_irrefl : forall a, str_ltb a a = false.
+Proof. exact str_ltb_irrefl. Qed.
+Print Assumptions C07_strings_lt_irrefl.
+
+(* uint64 / int32 helpers = arithmetic modulo 2^64 / 2^32 *)
+Theorem C07_strings_u64_add : forall a b, go_u64_add a b = ((a + b) mod 2 ^ 64)%N.
+Proof. exact go_u64_add_spec. Qed.
+Print Assumptions C07_strings_u64_add.
+
+Theorem C07_strings_u64_mul : forall a b, go_u64_mul a b = ((a * b) mod 2 ^ 64)%N.
+Proof. exact go_u64_mul_spec. Qed.
+Print Assumptions C07_strings_u64_mul.
+
+Theorem C07_strings_u64_sub : forall a b, Z.of_N (go_u64_sub a b) = ((Z.of_N a - Z.of_N b) mod 2 ^ 64)%Z.
+Proof. exact go_u64_sub_spec. Qed.
+Print Assumptions C07_strings_u64_sub.
+
+Theorem C07_strings_i32_wrap : forall z,
+  (- 2 ^ 31 <= go_i32 z < 2 ^ 31)%Z /\ ((go_i32 z - z) mod 2 ^ 32 = 0)%Z /\
+  ((- 2 ^ 31 <= z < 2 ^ 31)%Z -> go_i32 z = z).
+Proof. exact go_i32_wrap. Qed.
+Print Assumptions C07_strings_i32_wrap.
+
+Theorem C07_strings_u64_of_i32 : forall z, Z.of_N (go_u64_of_i32 z) = (z mod 2 ^ 64)%Z.
+Proof. exact go_u64_of_i32_spec. Qed.
+Print Assumptions C07_strings_u64_of_i32.
+
+(* strconv.Atoi, exactly: optional sign, at least one digit, digits only, value in the int64 range *)
+Theorem C07_strings_atoi : forall s z,
+  atoi s = Some z <->
+  exists neg body, atoi_syntax s neg body /\ body <> [] /\ forallb is_digit body = true /\
+                   z = (if neg then - digits_value body else digits_value body)%Z /\
+                   (int64_min <= z <= int64_max)%Z.
+Proof. exact atoi_spec. Qed.
+Print Assumptions C07_strings_atoi.
+
+(* well-formed but out of range = error; and Go's fast path: up to 18 digits never overflow *)
+Theorem C07_strings_atoi_range : forall (neg : bool) (body : str),
+  body <> [] -> forallb is_digit body = true ->
+  let s : str := if neg then "-"%char :: body else body in
+  let z : Z := (if neg then - digits_value body else digits_value body)%Z in
+  atoi s = if ((int64_min <=? z) && (z <=? int64_max))%Z then Some z else None.
+Proof. exact atoi_range_error. Qed.
+Print Assumptions C07_strings_atoi_range.
+
+Theorem C07_strings_atoi_short : forall (neg : bool) (body : str),
+  body <> [] -> forallb is_digit body = true -> length body <= 18 ->
+  atoi (if neg then "-"%char :: body else body : str) = Some (if neg then - digits_value body else digits_value body : Z)%Z.
+Proof. exact atoi_short. Qed.
+Print Assumptions C07_strings_atoi_short.
+
+(* ---------- examples: hypotheses met, characteristic runs ---------- *)
+Example C07_strings_example_split :
+  go_split (s2l "aaa") (s2l "aa") = [[]; s2l "a"] /\          (* non-overlapping, leftmost *)
+  go_count (s2l "aaaa") (s2l "aa") = 2 /\
+  go_split (s2l "a:b::c") (s2l ":") = [s2l "a"; s2l "b"; []; s2l "c"] /\
+  go_join (go_split (s2l "a:b::c") (s2l ":")) (s2l ":") = s2l "a:b::c" /\
+  go_index (s2l "ababa") (s2l "aba") = Some 0 /\ go_index (s2l "xaba") (s2l "aba") = Some 1 /\
+  go_cut (s2l "k=v=w") (s2l "=") = (s2l "k", s2l "v=w", true) /\
+  go_trim_left (s2l "  x ") (s2l " ") = s2l "x " /\
+  go_trim_prefix (s2l "ababc") (s2l "ab") = s2l "abc" /\
+  str_ltb (s2l "audit.log.10") (s2l "audit.log.9") = true.
+Proof. vm_compute. repeat split; reflexivity. Qed.
+
+Example C07_strings_example_atoi :
+  atoi (s2l "9223372036854775807") = Some 9223372036854775807%Z /\
+  atoi (s2l "9223372036854775808") = None /\
+  atoi (s2l "-9223372036854775808") = Some (-9223372036854775808)%Z /\
+  atoi (s2l "-9223372036854775809") = None /\
+  atoi (s2l "+7") = Some 7%Z /\ atoi (s2l "-0") = Some 0%Z /\ atoi (s2l "007") = Some 7%Z /\
+  atoi (s2l "1_000") = None /\ atoi (s2l " 1") = None /\ atoi (s2l "+") = None /\ atoi [] = None /\ atoi (s2l "+-1") = None /\
+  (exists neg body, atoi_syntax (s2l "-42") neg body /\ body <> [] /\ forallb is_digit body = true /\ digits_value body = 42%Z).
+Proof.
+  vm_compute. repeat split; try reflexivity.
+  exists true, (s2l "42"). repeat split; [constructor|discriminate].
+Qed.
